@@ -156,8 +156,8 @@ func (state *Runtime) setValue(name string, val reflect.Value) error {
 func (state *Runtime) LetGlobal(name string, val interface{}) {
 	sc := state.scope
 
-	// walk up to top-most valid scope
-	for sc.parent != nil && sc.parent.variables != nil {
+	// walk up to the top-most scope (its variable map is nil when Execute was called with a nil VarMap)
+	for sc.parent != nil {
 		sc = sc.parent
 	}
 
